@@ -56,16 +56,32 @@ def gen_ti_case(rng, tier):
             ops.append({"op": "fs_symlink", "path": "/sim/tree/" + rel, "target": "../" * rel.count("/") + "pool/file%d.img" % i})
         else:
             ops.append({"op": "fs_file", "path": "/sim/tree/" + rel, "size": size, "seed": rng.randint(0, 10 ** 9)})
+    # a second tree next to the first one holds files of the SAME relative names and sizes with other content (the other
+    # architecture of the same release); which file is hashed is decided by the root handed over with each call
+    two_roots = rng.random() < 0.3
+    if two_roots:
+        for rel, size in files:
+            ops.append({"op": "fs_file", "path": "/sim/tree2/" + rel, "size": size, "seed": rng.randint(0, 10 ** 9)})
+    else:
+        ops.append({"op": "fs_mkdir", "path": "/sim/tree2"})
+    roots = ["/sim/tree", "/sim/tree/"]
+    if rng.random() < 0.3:
+        # the root as a caller spells it: not in normal form
+        roots = ["/sim/./tree", "/sim//tree/", "/sim/tree/.", "/sim/tree2/../tree", "/sim/tree//"]
     for _ in range(rng.randint(2, 7)):
         rel, size = pick(rng, files)
         r = rng.random()
-        o = {"op": "ti_checksum_add", "path": decorate(rng, rel), "ctype": pick(rng, ALGOS), "root_dir": pick(rng, ["/sim/tree", "/sim/tree/"])}
+        o = {"op": "ti_checksum_add", "path": decorate(rng, rel), "ctype": pick(rng, ALGOS), "root_dir": pick(rng, roots)}
+        if two_roots and rng.random() < 0.5:
+            o["root_dir"] = pick(rng, ["/sim/tree2", "/sim/tree2/"])
         if r < 0.15:
             o["path"] = "/" + rel                       # absolute: refused
             if rng.random() < 0.5:
                 o["value"] = hexstr(rng, 32)
         elif r < 0.3:
             o["value"] = hexstr(rng, 64)                # explicit value
+            if rng.random() < 0.3:
+                o["value"] = o["value"].upper()         # ...in the spelling of the tool that printed it: kept verbatim
             if rng.random() < 0.4:
                 o["also_root"] = True                   # ...handed over TOGETHER with the tree root
         elif r < 0.55:
